@@ -12,7 +12,7 @@ import (
 func init() {
 	register("C01", &ruleSet{
 		run:    runC01,
-		floors: map[string]int{"O1": 2, "O2": 4, "O3": 2, "O4": 4, "O5": 2, "O6": 6, "O7": 1},
+		floors: map[string]int{"O1": 2, "O2": 4, "O3": 2, "O4": 4, "O5": 2, "O6": 7, "O7": 1},
 		explain: "Decides the premises from which the atomic-gate property follows by the short paper argument in DESIGN.md (releases only lower the counter; acquires and " +
 			"limit changes are serialised; the decision compares counter and limit in the right direction; the limit never drops below 1): (O1) every call of Strategy.TryAcquire " +
 			"and every post-construction call of Strategy.SetLimit inside a limiter holds that limiter's mutex exclusively; (O2) in each non-partitioned strategy every granting " +
